@@ -55,7 +55,9 @@ TRUSTED_BASE = [
     "statements recorded at the stand-in driver",
     "`checkStmt` is a token-level lint (balanced brackets/quotes, no {{ }} {name}, $names supplied, variables bound by a pattern / AS / "
     "YIELD / comprehension), not a Cypher parser; two implementations (Lean, Python) are compared on every recorded statement",
-    "harness/lib_fake_neo4j.py replaces the neo4j driver; Neo4j/APOC execution is not modelled at all",
+    "harness/lib_fake_neo4j.py replaces the neo4j driver (canned answers only let each operation run to its end); the oracle names a "
+    "call site Class.method#k from the backend frame that called run() and its own ast scan, independently of the translator; "
+    "Neo4j/APOC execution is not modelled at all",
     "grouping of requested components into (type, model, count) rows is done by the harness mirroring neo4j_cbm.py:285-294 and is "
     "checked only through the text comparison; str() of non-string property values is taken from Python",
 ]
